@@ -59,6 +59,11 @@ CHECKS = [
         "Exhaustive interleavings are about the models; the code is explored under the schedules the OS produced. The LSP commit model is not yet bound to the cajun binary over stdio. One known finding (F10: check_resolved pending slot).",
         "TLA+ concurrency models exhaustively model checked by TLC (safety + liveness, wrong variants refuted); randomized stress of the real session recorded as a trace and validated by TLC against the sequential from-scratch semantics",
         "DESIGN.md §4 C17"),
+    chk("C05", "model_checking",
+        "spec/ZyNumeric.tla defines W-bit two's-complement arithmetic on bit sequences (add, sub, shift-add mul, restoring division, signed div/rem by sign and magnitude with MIN/-1 wrap, signed/unsigned comparison, decimal rendering) and literal range checking on digit strings; TLC checks these against mathematics for all operand pairs at W=4,5 and W=8 (add/sub/compare, division laws, to_string, range predicate within +-300). TLC prints all 65536 operand pairs of Int8 and UInt8 for all 8 binary operations plus to_string, 324 boundary pairs per wider type and operation, 134 literal strings around every range boundary of the 8 types and 726 float comparison cases; every row is applied on the real Runtime (1.06 M host applications) or analysed and run by the real tool chain (accept iff in range, printed value equals the literal); default Int64 and absence of implicit conversions by 12 discipline programs.",
+        "NOT decided here: IEEE-754 arithmetic results (+ - * / at f32/f64), float_to_string, correctly-rounded decimal->binary conversion and the finite-after-narrowing test beyond three hand-picked Float32 literals - numeric accuracy is outside what a TLA+ model decides at reasonable cost. Random wide operands are not generated (boundary sets only).",
+        "TLA+ bit-vector semantics validated against mathematics by TLC at small widths; TLC-generated exhaustive 8-bit and boundary tables replayed on the real runtime and checker",
+        "DESIGN.md §4 C05, §5"),
 ]
 
 PENDING_REASON = "check not built yet (planned, see DESIGN.md)"
